@@ -67,6 +67,15 @@ def allowedOutcome (res : Option (Int × Bytes)) (new : Int × Bytes) (oldLoad :
   | none => true
   | some r => r == new || oldLoad == some r
 
+/-- Judge (executable): the conclusion of `Props.load_sound` — a load at clock `now` of a file with
+content `f` that answered `r` must have answered the header's deadline (not past), exactly `size`
+bytes, namely the data area, whose CRC-32 is the header's. -/
+def loadSoundOk (now : Int) (f : Bytes) (r : Int × Bytes) : Bool :=
+  match parseHeader f with
+  | none => false
+  | some h => r.1 == h.timeout && decide (now ≤ r.1) && r.2.length == h.size && crc32 r.2 == h.crc &&
+      r.2 == dataArea f h.size
+
 /-- Judge (executable): gc outcome on one directory entry at clock `now`.  `live`: a load of the
 entry succeeded just before gc (observed on the implementation); `kept`: present afterwards. -/
 def gcEntryOk (now : Int) (name content : Bytes) (live kept : Bool) : Bool :=
